@@ -3,8 +3,14 @@ open Dp
 
 /-! Line protocol of the dispatch model (C02). One request per line, space separated `key=value` words after the kind:
 
-      get|http sbs=0|1|default ops=s0,t1,… route=<rid>|- attrs=GET,POST~alt,…|- suffix=<s>|- combined=<COMBINED_METHODS>
+      get|http sbs=0|1|default ops=s0,t1,… route=<uri_template index>|- regs=<reg>|<reg>|…|- combined=<COMBINED_METHODS>
                hits=s0,t1,…|- method=<M> fields=k:v;k:v|- gi=s0>name@1;other@3|s3>…|- grp=s0>1:text;2:text|s3>…|-
+      add combined=<COMBINED_METHODS> regs=<reg>            → `ok` | `rejected` (SuffixedMethodNotFoundError)
+
+    `<reg>` = `<template index>:<rid>:<suffix>:<attrs>` is one `add_route` CALL in history order (rejected ones included):
+    `<suffix>` is `-` (not given / None) or `=<text>` (the string passed, possibly empty), `<attrs>` = `GET,POST~alt,…|-` the callable
+    `on_*` attributes the resource object had when the call was made. `route` is the `uri_template` the router returned for the
+    path (`-` = no route); the model finds the method map from the history (latest accepted registration of that template).
 
     `sbs` is the `sink_before_static_route` argument of the constructor (`default` = not given).
     `gi` is `pattern.groupindex` of every sink that has named groups (a property of the pattern), `grp` the groups that
@@ -58,16 +64,28 @@ def showR (sfx : Option String) : Responder → String
   | .static id => s!"static:{id}"
   | .notFound => "404"
 
+def parseReg (s : String) : Option RouteReg :=
+  match s.splitOn ":" with
+  | [t, rid, sfx, attrs] =>
+    rid.toNat?.map fun n =>
+      { tmpl := t, rid := n, attrs := (splitNE attrs ",").map parseAttr,
+        suffix := if sfx.startsWith "=" then some (sfx.drop 1).toString else none }
+  | _ => none
+
+def runAdd (ws : List String) : String :=
+  match (splitNE (kv ws "regs") "|").filterMap parseReg with
+  | [r] => if accepted (splitNE (kv ws "combined") ",") r then "ok" else "rejected"
+  | _ => "bad-line"
+
 def runCase (kind : String) (ws : List String) : String :=
   let ops := (splitNE (kv ws "ops") ",").filterMap parseEntry
   let app := ops.foldl (fun a e => match e with | (.sink, id) => a.addSink id | (.static, id) => a.addStatic id)
     (App.init (if kv ws "sbs" == "default" then none else some (kv ws "sbs" == "1")))
   let hits := (splitNE (kv ws "hits") ",").filterMap parseEntry
-  let sfx : Option String := if kv ws "suffix" == "-" || kv ws "suffix" == "" then none else some (kv ws "suffix")
-  let route : Option MethodMap :=
-    match (kv ws "route").toNat? with
-    | some rid => some (mkMethodMap rid (splitNE (kv ws "combined") ",") ((splitNE (kv ws "attrs") ",").map parseAttr) sfx)
-    | none => none
+  let routes := routesOf (splitNE (kv ws "combined") ",") ((splitNE (kv ws "regs") "|").filterMap parseReg)
+  let bound : Option Bound := if kv ws "route" == "-" then none else routes.find (kv ws "route")
+  let route : Option MethodMap := bound.map (·.mm)
+  let sfx : Option String := bound.bind (·.suffix)
   let hitf : Kind × Nat → Bool := fun e => hits.contains e
   let giTab := parseTab (kv ws "gi")
   let grpTab := parseTab (kv ws "grp")
@@ -93,6 +111,7 @@ partial def loop (h : IO.FS.Stream) : IO Unit := do
   let line ← h.getLine
   if line.isEmpty then return ()
   match line.trimAscii.toString.splitOn " " with
+  | "add" :: ws => IO.println (runAdd ws)
   | kind :: ws => IO.println (runCase kind ws)
   | [] => IO.println "bad-line"
   loop h
